@@ -110,6 +110,8 @@ class Gen:
 
     def ref(self, fr, col):
         """text that refers to known column `col` in frame fr, or None when it cannot be named"""
+        if col.name is None:
+            return None     # an un-aliased computed column: part of the frame, reaches the output, cannot be referenced
         if fr.count(col.name) == 1:
             if col.inp and self.chance(0.25) and col.inp in fr.pools:
                 return "%s.%s" % (col.inp, col.name)
@@ -273,7 +275,12 @@ class Gen:
         chosen = self.r.sample(av, k)
         items, cols, seen = [], [], set()
         for txt, c in chosen:
-            if self.chance(0.3):
+            if self.chance(0.12):
+                # un-aliased computed column (RelationColumn::Single(None))
+                items.append(self.expr(fr, 1, prog) + " + 1")
+                cols.append(Col(None))
+                prog.features.add("unnamed-column")
+            elif self.chance(0.3):
                 n = self.newname("x")
                 items.append("%s = %s" % (n, self.expr(fr, 1, prog)))
                 cols.append(Col(n))
@@ -289,7 +296,7 @@ class Gen:
     def step(self, prog, p, depth, allow=None):
         fr = p.frame
         kinds = ["derive"] * 4 + ["filter"] * 3 + ["select"] * 3 + ["sort"] * 2 + ["take"] * 2 + ["aggregate", "group-agg", "group-take", "group-derive", "window"] \
-            + ["join"] * 3 + ["append", "loop", "pipefunc", "sort-select", "derive-window"]
+            + ["join"] * 3 + ["append", "append", "loop", "pipefunc", "sort-select", "derive-window", "group-append"]
         if allow:
             kinds = [k for k in kinds if k in allow]
         k = self.pick(kinds)
@@ -340,7 +347,11 @@ class Gen:
             if c is None:
                 return
             n1, n2 = self.newname("n"), self.newname("m")
-            p.push("aggregate {%s = count this, %s = %s %s}" % (n1, n2, self.pick(["sum", "min", "max", "average"]), c[0]), "aggregate", Frame([Col(n1), Col(n2)], [], fr.pools))
+            if self.chance(0.15):
+                prog.features.add("unnamed-column")
+                p.push("aggregate {%s = count this, %s %s}" % (n1, self.pick(["sum", "min", "max"]), c[0]), "aggregate", Frame([Col(n1), Col(None)], [], fr.pools))
+            else:
+                p.push("aggregate {%s = count this, %s = %s %s}" % (n1, n2, self.pick(["sum", "min", "max", "average"]), c[0]), "aggregate", Frame([Col(n1), Col(n2)], [], fr.pools))
         elif k.startswith("group"):
             keys = []
             for _ in range(self.r.randrange(1, 3)):
@@ -360,7 +371,11 @@ class Gen:
                 return
             if k == "group-agg":
                 n1, n2 = self.newname("n"), self.newname("m")
-                p.push("group %s (aggregate {%s = count this, %s = sum %s})" % (ktxt, n1, n2, v[0]), "group-agg", Frame(kcols + [Col(n1), Col(n2)], [], fr.pools))
+                if self.chance(0.15):
+                    prog.features.add("unnamed-column")
+                    p.push("group %s (aggregate {%s = count this, max %s})" % (ktxt, n1, v[0]), "group-agg", Frame(kcols + [Col(n1), Col(None)], [], fr.pools))
+                else:
+                    p.push("group %s (aggregate {%s = count this, %s = sum %s})" % (ktxt, n1, n2, v[0]), "group-agg", Frame(kcols + [Col(n1), Col(n2)], [], fr.pools))
             elif k == "group-take":
                 p.push("group %s (sort %s | take %d)" % (ktxt, v[0], self.r.randrange(1, 4)), "group-take", fr.copy())
             else:
@@ -399,7 +414,7 @@ class Gen:
             left = self.refs_available(fr)
             if not left:
                 return
-            right_names = [c.name for c in sfr.cols] or sfr.pools.get(jname, [])
+            right_names = [c.name for c in sfr.cols if c.name] or sfr.pools.get(jname, [])
             shared = [(t, c) for t, c in left if c.name in right_names]
             side = self.pick(["", "", "side:left ", "side:full "])
             if shared and (jname or self.chance(0.9)) and self.chance(0.6):
@@ -435,16 +450,27 @@ class Gen:
                 if n > len(TABLES[t]):
                     return
                 cols = self.r.sample(TABLES[t], n)
+                if self.chance(0.25):
+                    cols[self.r.randrange(n)] += " * 2"       # an un-aliased computed column in the bottom
+                    prog.features.add("unnamed-column")
                 prog.features.add("append-sub")
                 p.push("append (from %s | select {%s})" % (t, ", ".join(cols)), "append", fr.copy())
             elif not fr.cols and not self.closed:
                 t = self.pick(list(TABLES) + list(n for n in prog.lets if prog.lets[n].wild and not prog.lets[n].cols))
                 prog.features.add("append-table")
                 p.push("append %s" % t, "append", fr.copy())
+        elif k == "group-append":
+            # a relational argument inside a group body (the group's partition must stay outside of it)
+            if fr.cols or len(fr.wild) != 1 or self.closed:
+                return
+            key = self.colref(fr)
+            t = self.pick(list(TABLES))
+            prog.features.add("group-append")
+            p.push("group {%s} (take %d | append (from %s | take %d))" % (key[0], self.r.randrange(1, 4), t, self.r.randrange(1, 4)), "group-append", fr.copy())
         elif k == "loop":
             if not (fr.closed and 1 <= len(fr.cols) <= 4):
                 return
-            if any(fr.count(c.name) != 1 for c in fr.cols):
+            if any(c.name is None or fr.count(c.name) != 1 for c in fr.cols):
                 return
             c0 = fr.cols[0].name
             items = ["%s = %s + 1" % (c0, c0)] + [c.name for c in fr.cols[1:]]
@@ -486,12 +512,17 @@ class Gen:
             n = self.newname("top")
             prog.decls.append("let %s = n rel -> (rel | take n)" % n)
             prog.funcs[n] = {"kind": "pipe", "params": 1, "named": []}
+        if self.chance(0.06):
+            # a function that mentions its relation parameter twice: the argument pipeline is lowered twice
+            n = self.newname("dbl")
+            prog.decls.append("let %s = n rel -> (rel | append (rel | take n))" % n)
+            prog.funcs[n] = {"kind": "pipe", "params": 1, "named": []}
         # let tables
         for _ in range(self.pick([0, 0, 1, 1, 2])):
             n = self.newname("tab")
             p = self.pipeline(prog, 1, nsteps=self.r.randrange(1, 4))
             fin = p.frame
-            if any(fin.count(c.name) != 1 for c in fin.cols) or len(fin.wild) > 1:
+            if any(c.name is None or fin.count(c.name) != 1 for c in fin.cols) or len(fin.wild) > 1:
                 self.step_select(prog, p, force=True)
                 fin = p.frame
             prog.decls.append("let %s = (\n  %s\n)" % (n, p.text(sep="\n  ")) if self.chance(0.3) else "let %s = (%s)" % (n, p.text()))
@@ -537,5 +568,16 @@ FIXED = [
     "from t | filter (a | in 1..5) | derive {c = case [a > 1 => b, true => c]}",
     "from_text format:json '[{\"a\": 1, \"b\": 2}]' | derive {c = a + b}",
     "from t | derive {x = [a, b, 3]}",
+    # un-aliased computed / aggregated columns (RelationColumn::Single(None)) reaching the output
+    "from t | select {a, b + 1} | append (from u | select {id, d})",
+    "from t | select {a, b + 1} | append (from u | select {id, d * 2}) | filter a > 1 | sort a",
+    "from t | join (from u | filter d >= 10 | select {id, d * 2}) (==id)",
+    "from t | join side:left (from u | group id (aggregate {max d})) (==id)",
+    "from t | aggregate {count this, sum a}",
+    "from t | select {a, b} | join (from u | select {id, d * 2}) (a == id) | take 3",
+    # relational arguments inside group / after sort (the Flattener's partition / sort must not cross into them)
+    "from t | sort a | join (from u | take 2) (==id)",
+    "from t | sort a | append (from u | derive {r = row_number this} | take 2)",
+    "from t | group {g} (take 2 | append (from u | take 3))",
     "let a1 = (from t | select {id, a})\nlet a2 = (from a1 | join u (==id) | select {a1.id, u.d})\nlet a3 = (from a2 | join a1 (==id))\nfrom a3 | take 2",
 ]
